@@ -93,6 +93,9 @@ def roots_of(f, e, upv=None):
             out.add(('call', x[1], x[3] if len(x) > 3 else None))
             for a in x[2]:
                 rec(a)
+            # small crate-local pure helpers (Kind::cloexec_flag, ...): their constant results are part of the value
+            for c in _callee_consts(f, x, 0):
+                out.add(c)
         elif k in ('bin',):
             rec(x[2]); rec(x[3])
         elif k == 'un':
@@ -114,6 +117,40 @@ def roots_of(f, e, upv=None):
         else:
             out.add(('unknown', str(x[1:]), None))
     rec(e)
+    return out
+
+
+_CALLEE_MEMO = {}
+
+
+def _callee_consts(f, callx, depth):
+    """named/literal constants a small crate-local callee can return (one level of calls deep)"""
+    facts = getattr(f, 'facts', None)
+    if facts is None or depth > 1:
+        return set()
+    name = callx[3] if len(callx) > 3 and callx[3] else callx[1]
+    g = facts.fn_opt(name) or facts.fn_opt(callx[1])
+    if g is None or g is f or len(g.blocks) > 12:
+        return set()
+    if g.path == 'fd::AsyncFd::fd':
+        return set()  # the descriptor accessor: its bit-31 mask is checked by C07.R5, the value is labelled `fd`
+    if g.path in _CALLEE_MEMO and _CALLEE_MEMO[g.path][0] is facts:
+        return _CALLEE_MEMO[g.path][1]
+    _CALLEE_MEMO[g.path] = (facts, set())
+    eb = ExprBuilder(g, multi='phi')
+    out = set()
+    rets = []
+    for loc, s in g.assigns():
+        if s['lhs']['l'] == 0 and not s['lhs']['p']:
+            rets.append(eb.rvalue(s['rv']))
+    for loc, t in g.calls():
+        if not t['dest']['p'] and t['dest']['l'] == 0:
+            rets.append(eb.call(t))
+    for e in rets:
+        for x in subexprs(e):
+            if x[0] == 'const' and (x[1] is not None) and x[3] not in ('bool',) and x[2] is not None:
+                out.add(('const', x[1], x[2]))
+    _CALLEE_MEMO[g.path] = (facts, out)
     return out
 
 
